@@ -72,7 +72,7 @@ REG = {
         "theorems": thms("C07", ["C07_empty", "C07_native_integer", "C07_native_count", "C07_native_float",
                                  "C07_native_boolean", "C07_native_datetime", "C07_accepts_float_as_integer",
                                  "C07_accepts_complex_as_float"]),
-        "runners": ["family", "pandas"],
+        "runners": ["family", "pandas", "numpy", "list"],
         "partial": "string encodings rest on the element parsers (data of the model); the full grid of families x encodings x null patterns is explored by the family runner on the real code",
     },
     "C09": {
